@@ -75,6 +75,15 @@ const c16Soy = `{namespace d}
 {template .brwbr}
 {$x|changeNewlineToBr|insertWordBreaks:$n}
 {/template}
+/** @param x
+ @param n */
+{template .trwbr}
+{$x|truncate:$n|insertWordBreaks:2}
+{/template}
+/** @param x */
+{template .rawbr}
+{$x|noAutoescape|changeNewlineToBr}
+{/template}
 /** @param x */
 {template .urijs}
 {$x|escapeUri|escapeJsString}
@@ -369,6 +378,21 @@ func checkC16(c *Ctx) {
 					case valid && be == "js" && strings.ContainsRune(out, utf8.RuneError) && !strings.ContainsRune(s, utf8.RuneError):
 						bad("truncate cuts at a character boundary (no lone surrogate)", "tr-surrogate", t, n, "whole characters", fmt.Sprintf("%q", out))
 					}
+				}
+			}
+			// chains that end in an HTML-producing directive: whatever precedes it, no raw special may
+			// remain once the directive's own markup is removed (both backends).
+			for _, t := range []string{"trbr", "brwbr", "trwbr", "rawbr"} {
+				if long {
+					continue
+				}
+				out, ok := render(t, 3)
+				if !ok {
+					continue
+				}
+				stripped := strings.ReplaceAll(strings.ReplaceAll(out, "<br>", ""), "<wbr>", "")
+				if _, okd := htmlDecodeFull(stripped); !okd && t != "rawbr" {
+					bad("an HTML-producing directive escapes what it passes through, wherever it stands in a chain", "chain-raw:"+t, t, 3, "no raw special outside <br>/<wbr>", out)
 				}
 			}
 			// chains: the composition law d1|d2 == d2(d1(x))
